@@ -582,6 +582,17 @@ func (tr *Translator) call(c *ECall) tv {
 			tr.fail("isappend needs spec concatOf")
 		}
 		return tr.specApp(sf, []tv{arg(0), arg(1), arg(2)})
+	case "athdr":
+		// evaluate in the state (and with the loop variables) of the loop header of the current iteration
+		if tr.li == nil || tr.li.stAtHeader == nil {
+			tr.fail("athdr() outside a loop context")
+		}
+		saved, savedPhi := tr.cur, tr.phiEnv
+		savedOld := tr.inOld
+		tr.cur, tr.phiEnv, tr.inOld = tr.li.stAtHeader, tr.li.phiSyms, false
+		v := arg(0)
+		tr.cur, tr.phiEnv, tr.inOld = saved, savedPhi, savedOld
+		return v
 	case "hdr":
 		// value of a loop variable at the loop header (the havoced phi), usable inside the loop body / back edge
 		id, ok := c.Args[0].(*EIdent)
